@@ -429,7 +429,7 @@ class PackageIR(AbstractIR):
 
     @property
     def partial(self):
-        return self.__data['data']['partial']
+        return self.__data['partial']
 
     def getRecipe(self):
         return self.mungeRecipe(self.__data['recipe'])
